@@ -79,7 +79,9 @@ func histories(start, depth int) [][]op {
 	return out
 }
 
-var idxForms = []string{"literal", "const", "let", "mutated-let", "func-result"}
+// "appending-call": the index is the result of a call that first appends to the same array and
+// returns the position it created (the array has to be measured after the index is evaluated)
+var idxForms = []string{"literal", "const", "let", "mutated-let", "func-result", "appending-call"}
 
 type elemKind struct {
 	name string
@@ -134,6 +136,18 @@ func build(start int, h []op, form string, ek elemKind, sfx string) *fl.Program 
 				fn := fmt.Sprintf("ix%d%s", step, sfx)
 				p.Funcs = append(p.Funcs, &fl.Func{Name: fn, Ret: fl.I32, Body: []fl.Stmt{&fl.Return{X: fl.L(fl.I32, o.idx)}}})
 				ix = fl.C(fn)
+			case "appending-call":
+				// appends one element, then returns the requested index shifted by one (so that
+				// the history's "last element" / "one past the end" keep their meaning)
+				fn := fmt.Sprintf("gr%d%s", step, sfx)
+				next++
+				shift := o.idx
+				if o.idx >= 0 {
+					shift = o.idx + 1 // non-negative positions move with the new length
+				}
+				p.Funcs = append(p.Funcs, &fl.Func{Name: fn, Params: []fl.Param{{"a", fl.TRef{Elem: fl.TDyn{Elem: t}, Mut: true}}}, Ret: fl.I32, Body: []fl.Stmt{
+					&fl.Append{Arr: fl.V("a"), Val: ek.val(t, next), Ref: true}, &fl.Return{X: fl.L(fl.I32, shift)}}})
+				ix = fl.C(fn, &fl.Borrow{X: d, Mut: true})
 			}
 		}
 		body = append(body, pre...)
@@ -225,7 +239,10 @@ func Run(c *vl.Ctx) {
 			for _, h := range histories(st, depth) {
 				for _, form := range idxForms {
 					if quick && (form == "const" || form == "mutated-let") {
-						continue // quick: literal, let, func-result; thorough: all five
+						continue // quick: literal, let, func-result, appending-call; thorough: all six
+					}
+					if form == "appending-call" && (ek.name != "i32" || len(h) > 2) {
+						continue
 					}
 					hasIdx := false
 					for _, o := range h {
@@ -290,6 +307,77 @@ func Run(c *vl.Ctx) {
 			}
 		}
 	}
+	// strings held in a variable that is re-assigned: before the access (the length that counts
+	// is the new one) or after it (the length that counts is the old one), from a literal, a
+	// call or a concatenation; the index runs over the boundaries of both lengths
+	for _, before := range []string{"none", "literal", "call", "concat"} {
+		for _, after := range []string{"none", "literal", "call"} {
+			if before == "none" && after == "none" {
+				continue
+			}
+			s0, s1, s2 := "hi", "abcdefgh", "xy"
+			cur := s0
+			switch before {
+			case "literal", "call":
+				cur = s1
+			case "concat":
+				cur = s0 + s1
+			}
+			seen := map[int64]bool{}
+			for _, L := range []int{len(cur), len(s0), len(s1), len(s2)} {
+				for _, i := range []int64{int64(-L - 1), int64(-L), -1, 0, int64(L - 1), int64(L)} {
+					if seen[i] {
+						continue
+					}
+					seen[i] = true
+					for _, form := range []string{"literal", "let", "func-result"} {
+						id := fmt.Sprintf("C08/strvar/%s/%s/%s/%d", before, after, form, i)
+						if f := os.Getenv("VERIF_FILTER"); f != "" && !strings.Contains(id, f) {
+							continue
+						}
+						seq++
+						sfx := fmt.Sprintf("_%d", seq)
+						p := &fl.Program{}
+						p.Funcs = append(p.Funcs, &fl.Func{Name: "mk1" + sfx, Ret: fl.Str, Body: []fl.Stmt{&fl.Return{X: fl.S(s1)}}},
+							&fl.Func{Name: "mk2" + sfx, Ret: fl.Str, Body: []fl.Stmt{&fl.Return{X: fl.S(s2)}}})
+						var ix fl.Expr = fl.L(fl.I32, i)
+						var pre []fl.Stmt
+						switch form {
+						case "let":
+							pre = []fl.Stmt{&fl.Let{Name: "i", T: fl.I32, Init: fl.L(fl.I32, i)}}
+							ix = fl.V("i")
+						case "func-result":
+							p.Funcs = append(p.Funcs, &fl.Func{Name: "ix" + sfx, Ret: fl.I32, Body: []fl.Stmt{&fl.Return{X: fl.L(fl.I32, i)}}})
+							ix = fl.C("ix" + sfx)
+						}
+						body := []fl.Stmt{&fl.Let{Name: "s", T: fl.Str, Init: fl.S(s0)}}
+						switch before {
+						case "literal":
+							body = append(body, &fl.Assign{LHS: fl.V("s"), RHS: fl.S(s1)})
+						case "call":
+							body = append(body, &fl.Assign{LHS: fl.V("s"), RHS: fl.C("mk1" + sfx)})
+						case "concat":
+							body = append(body, &fl.Assign{LHS: fl.V("s"), RHS: fl.B("+", fl.V("s"), fl.S(s1))})
+						}
+						body = append(body, fl.P(&fl.Len{X: fl.V("s")}), fl.P(fl.S("before")))
+						body = append(body, pre...)
+						body = append(body, &fl.Let{Name: "ch", Init: fl.Ix(fl.V("s"), ix)}, fl.P(fl.V("ch")), fl.P(fl.S("after")))
+						switch after {
+						case "literal":
+							body = append(body, &fl.Assign{LHS: fl.V("s"), RHS: fl.S(s2)})
+						case "call":
+							body = append(body, &fl.Assign{LHS: fl.V("s"), RHS: fl.C("mk2" + sfx)})
+						}
+						body = append(body, fl.P(&fl.Len{X: fl.V("s")}))
+						p.Funcs = append(p.Funcs, &fl.Func{Name: "main", Body: body})
+						cases = append(cases, &prog.Case{ID: id, P: p, Want: fl.Run(p)})
+						// reassigned before: the length is not a literal's any more
+						hs = append(hs, []op{{kind: "append"}, {kind: "read", idx: i}})
+					}
+				}
+			}
+		}
+	}
 	r := prog.New(c)
 	for _, target := range []string{"native", "wasm"} {
 		var live []*prog.Case
@@ -317,7 +405,7 @@ func Run(c *vl.Ctx) {
 			switch {
 			case !o.Accepted && target == "wasm":
 				c.Count("wasm_rejected", 1) // the wasm back end supports a subset; only accepted programs are judged
-			case !o.Accepted && wantPanic && noAppendBefore(lh[i]) && strings.Contains(o.Reject, "T0009"):
+			case !o.Accepted && wantPanic && noAppendBefore(lh[i]) && !strings.Contains(k.ID, "/appending-call/") && strings.Contains(o.Reject, "T0009"):
 				c.Outcome(target + ":compile-time-T0009-for-always-oob")
 			case !o.Accepted:
 				c.Outcome(target + ":rejected")
